@@ -558,6 +558,11 @@ func (sc *scen) loadState(label string) {
 					s = "not-loaded"
 				}
 				sc.w.c.Distinct("lazy:shard-of-old-group:"+label, s)
+				if !sh.Opened && label != "after-restart" {
+					scenMu.Lock()
+					notLoadedSeen = true
+					scenMu.Unlock()
+				}
 				sc.note("shard %d of the old group is %s (%s)", sh.ID, s, label)
 			}
 		}
